@@ -12,7 +12,8 @@ import YaegiVerif.Model.Share
       assigned, the others are new variables;
     * For statements with range clause: "The range expression x is evaluated once"; ranging over an
       array iterates over a copy, over a slice over the live elements (length fixed at the start);
-      every iteration has its own copy of the iteration variables (Go 1.22);
+      over a pointer to an array over the elements of the pointee (no copy); every iteration has its own copy
+      of the iteration variables (Go 1.22);
     * Appending: operands are evaluated (to values) before the elements are stored; the backing array is
       re-used when the capacity suffices; the capacity of a new backing array is the runtime's choice
       (parameter `Growth`, shared with the model);
@@ -173,19 +174,22 @@ def mapDel (st : St) (m : LExp) (k : IExp) : Except Err St := do
   let key ← keyVal st k
   mapRemove st mv key
 
-/-- `x, ok = m[k]` / `x, ok := m[k]`: the zero value when the key is missing -/
-def lookup2 (st : St) (isDef : Bool) (x ok : Name) (m : LExp) (k : IExp) (zero : Val) : Except Err St := do
+/-- a new variable, or an assignment to the existing one -/
+def setOrDeclare (st : St) (decl : Bool) (x : Name) (v : Val) : Except Err St :=
+  if decl then .ok (declare st x v)
+  else do
+    let l ← st.var x
+    st.write l v
+
+/-- `x, ok = m[k]` / `x, ok := m[k]`: the zero value when the key is missing; in the `:=` form a variable
+    already declared in the scope (rdx / rdok) is assigned, the others are new variables at each execution -/
+def lookup2 (st : St) (isDef : Bool) (x ok : Name) (m : LExp) (k : IExp) (zero : Val) (rdx rdok : Bool) : Except Err St := do
   let loc ← resolve st m
   let mv ← st.read loc
   let key ← keyVal st k
   let r ← mapLookup st mv key
-  if isDef then
-    .ok (declare (declare st x (r.getD zero)) ok (boolVal r.isSome))
-  else do
-    let lx ← st.var x
-    let lok ← st.var ok
-    let st1 ← st.write lx (r.getD zero)
-    st1.write lok (boolVal r.isSome)
+  let st1 ← setOrDeclare st (isDef && !rdx) x (r.getD zero)
+  setOrDeclare st1 (isDef && !rdok) ok (boolVal r.isSome)
 
 /-- `l = mut(arg)`: the parameter is a new variable holding a copy of the argument -/
 def callMut (st : St) (isDef : Bool) (l : LExp) (sel : LExp) (k : Int) (arg : RExp) : Except Err St := do
@@ -205,7 +209,7 @@ def sop (G : Growth) (st : St) : SOp → Except Err St
   | .copy d s => copy st d s
   | .mapSet m k r => mapSet st m k r
   | .mapDel m k => mapDel st m k
-  | .lookup2 isDef x ok m k zero => lookup2 st isDef x ok m k zero
+  | .lookup2 isDef x ok m k zero rdx rdok => lookup2 st isDef x ok m k zero rdx rdok
   | .callMut isDef l sel k arg => callMut st isDef l sel k arg
   | .show xs => .ok { st with out := st.out ++ [showLine st xs] }
 
@@ -215,7 +219,8 @@ def sops (G : Growth) (st : St) : List SOp → St × Option Err
     | .ok st1 => sops G st1 os
     | .error e => (st, some e)
 
-/-- the range expression is evaluated once: an array is copied, a slice shares its elements -/
+/-- the range expression is evaluated once: an array is copied, a slice shares its elements, of a pointer to
+    an array the pointer is evaluated once and the elements of the pointee are read when reached -/
 def rangeSrc (st : St) (l : LExp) : Except Err RangeSrc := do
   let loc ← resolve st l
   let v ← st.read loc
@@ -223,6 +228,12 @@ def rangeSrc (st : St) (l : LExp) : Except Err RangeSrc := do
   | .arr vs => .ok (.snapshot vs.toList)
   | .slice b off len _ => .ok (.live b off len)
   | .nilslice => .ok (.snapshot [])
+  | .ptr t => do
+    let a ← st.read t
+    match a with
+    | .arr vs => .ok (.live t 0 vs.length)
+    | _ => .error "ill:type"
+  | .nil => .error "nilderef"
   | _ => .error "ill:type"
 
 def range (G : Growth) (st : St) (l : LExp) (i v : Name) (body : List SOp) : St × Option Err :=
